@@ -15,6 +15,8 @@ func main() {
 	switch e.Prop {
 	case "C12":
 		(&c12{e: e, r: r}).run()
+	case "C13":
+		(&c13{e: e, r: r}).run()
 	default:
 		fmt.Fprintln(os.Stderr, "router2: unknown property", e.Prop)
 		e.Finish()
